@@ -111,21 +111,15 @@ impl OpenPositions {
         match self {
             Self::Compact(ap) => ap.find_last_open_at_text_pos(text_pos),
             Self::Dense(v) => {
-                // Binary search for non-compact storage
-                let text_pos_u32 = text_pos as u32;
-                let search_result = v.binary_search(&text_pos_u32);
-
-                match search_result {
-                    Ok(idx) => {
-                        // Found a match, scan right to find the last one
-                        let mut last = idx;
-                        while last + 1 < v.len() && v[last + 1] == text_pos_u32 {
-                            last += 1;
-                        }
-                        Some(last)
-                    }
-                    Err(_) => None,
-                }
+                // Dense storage is the fallback for positions that are *not*
+                // monotonic (see `build`), so the vector is unsorted by
+                // construction and cannot be binary-searched: one out-of-order
+                // entry -- the `text.len()` sentinel of an empty document's
+                // null, say -- sent the search the wrong way and made every
+                // node after it unlocatable. Scan from the back for the last
+                // open at this position instead.
+                let text_pos_u32 = u32::try_from(text_pos).ok()?;
+                v.iter().rposition(|&pos| pos == text_pos_u32)
             }
         }
     }
